@@ -50,7 +50,19 @@ func VfC03Unseal() {
 	copy(again, wire)
 	w0 := sB.VfEnc().VfSeqSnap()
 	seq, ft := f.SequenceNum(), f.SequenceTime()
+	nOpen, nVer := len(vf.Opens), len(vf.Verifies)
 	if f.Unseal(sB) != nil {
+		// refused: only for a reason the property allows - the primitive rejected the bytes, or the
+		// replay filter of the frame's class, as it stood, does not accept the number / timestamp
+		switch cls {
+		case MessageClassSigned:
+			verified := len(vf.Verifies) > nVer && vf.Verifies[len(vf.Verifies)-1].OK
+			vf.Assert(!(verified && ft.After(latest)), "newer-signed-frame-refused")
+		case MessageClassPriorityEncrypted, MessageClassEncrypted:
+			opened := len(vf.Opens) > nOpen && vf.Opens[len(vf.Opens)-1].OK
+			notTried := len(vf.Opens) == nOpen
+			vf.Assert(!((opened || notTried) && state.VfSeqAccepts(w0, seq, cls == MessageClassPriorityEncrypted)), "frame-within-the-replay-window-refused")
+		}
 		vf.Reach("rejected")
 		return
 	}
